@@ -1,5 +1,5 @@
 (* CollectionsTables.v — the model's own table of the C12 commands (directory name in the SDK
-   source, aliases, minimal argument count, wanted kind) and the test that the table regenerated
+   source, aliases (each must still be declared by the source; further aliases are tolerated), minimal argument count, wanted kind) and the test that the table regenerated
    from the source (coq/generated/GenCollections.v, lib/gen/c12_gen.py) says the same.
    DEFINITIONS ONLY; the proof by computation is CollectionsProof.gen_table_ok. *)
 From stdpp Require Import gmap list.
@@ -74,7 +74,7 @@ Definition args_check (c : cmd) : bool :=
 
 Definition row_ok (c : cmd) (row : str * list str * bool * N * N) : bool :=
   let '(d, al, sc, mn, kd) := row in
-  bool_decide (d = cmd_dir c) && bool_decide (al = cmd_aliases c) && Bool.eqb sc (negb (native c))
+  bool_decide (d = cmd_dir c) && forallb (fun a => bool_decide (a ∈ al)) (cmd_aliases c) && Bool.eqb sc (negb (native c))
   && (N.to_nat mn =? cmd_min_args c)%nat
   && (if native c then (kd =? kind_code (wants c))%N else true)
   && args_check c.
